@@ -118,6 +118,7 @@ type mBlock struct {
 	hasKV     bool
 	ways      []mWay
 	rels      []mRel
+	mixed     bool // ways and relations share one primitive group (the decoder accepts it)
 }
 
 func (m *mBlock) granularity() int64 {
@@ -380,19 +381,30 @@ func (m *mBlock) encode() []byte {
 		g.bytesField(2, m.encodeDense())
 		w.bytesField(2, g.b)
 	}
-	if len(m.ways) > 0 {
+	if m.mixed {
 		var g pbw
 		for i := range m.ways {
 			g.bytesField(3, m.encodeWay(&m.ways[i]))
 		}
-		w.bytesField(2, g.b)
-	}
-	if len(m.rels) > 0 {
-		var g pbw
 		for i := range m.rels {
 			g.bytesField(4, m.encodeRel(&m.rels[i]))
 		}
 		w.bytesField(2, g.b)
+	} else {
+		if len(m.ways) > 0 {
+			var g pbw
+			for i := range m.ways {
+				g.bytesField(3, m.encodeWay(&m.ways[i]))
+			}
+			w.bytesField(2, g.b)
+		}
+		if len(m.rels) > 0 {
+			var g pbw
+			for i := range m.rels {
+				g.bytesField(4, m.encodeRel(&m.rels[i]))
+			}
+			w.bytesField(2, g.b)
+		}
 	}
 	if m.hasGran {
 		w.varintField(17, uint64(m.gran), m.width)
